@@ -21,6 +21,10 @@ class KeygenErr(Exception):
     pass
 
 
+class RejectErr(TypeError):
+    """raised by the rejecting archive of the replay harness: a value the backend cannot encode"""
+
+
 def _mods():
     import klepto
     import klepto.safe
@@ -112,13 +116,28 @@ def build(spec):
                 raise KeygenErr('keymap')
             return km.keymap.__call__(self, *a, **k)
 
-    def mkarch(d):
+    rejections = []
+    rejected_values = set()
+
+    class RejectingArchive(ka.dict_archive):
+        """an archive whose backend cannot encode some values (like json and a complex number): writing one raises, a bulk
+        write stores the entries before the offending one"""
+        def __setitem__(self, k, v):
+            if v in rejected_values:
+                rejections.append(k)
+                raise RejectErr('cannot encode %r' % (v,))
+            ka.dict_archive.__setitem__(self, k, v)
+
+        def update(self, adict, **kw):
+            for k, v in dict(adict, **kw).items():
+                self[k] = v
+
+    def mkarch(d, rejecting=False):
         if d is None:
             return ka.null_archive()
-        a = ka.dict_archive()
-        return a
+        return RejectingArchive() if rejecting else ka.dict_archive()
 
-    A = mkarch(spec['A'])
+    A = mkarch(spec['A'], bool(spec.get('rejects')))
     S = mkarch(spec['S'])
     # decoration happens in the configuration the history started from (`arch0`: archive attached or not); whatever a
     # decorator captures at that moment must stay right when the archive is toggled later
@@ -164,7 +183,9 @@ def build(spec):
     if roles['counter'] is not None and spec.get('counter') is not None:
         for e, n in spec['counter'].items():
             dict.__setitem__(roles['counter'], key_of(int(e)), n)
-    ctx = {'calls': calls, 'roles': roles, 'key_of': key_of, 'arg_of': arg_of, 'val': val, 'F': F}
+    for e in spec.get('rejects') or []:
+        rejected_values.add(val(arg_of(e)))
+    ctx = {'calls': calls, 'roles': roles, 'key_of': key_of, 'arg_of': arg_of, 'val': val, 'F': F, 'rejections': rejections}
     return w, ctx
 
 
@@ -284,6 +305,17 @@ def eval_clause(clause, spec, pre, post, outcome, value, ctx):
             if not ((k in post.mem and post.mem[k] == v) or (k in post.A and post.A[k] == v)):
                 return False
         return True
+    if name == 'rejected_archive_write_loses_nothing':
+        # order of dump and drop: an entry is in the archive before it leaves memory, so a write the backend rejected
+        # cannot have cost an entry
+        if not ctx.get('rejections'):
+            return True
+        M0 = dict(pre.mem)
+        if usable and not inmem and (calls or inarch):
+            M0[key] = ctx['val'](arg)
+        return all((k in post.mem and post.mem[k] == v) or (k in post.A and post.A[k] == v) for k, v in M0.items())
+    if name == 'rejected_archive_write_propagates':
+        return (not ctx.get('rejections')) or (outcome == 'raise' and isinstance(value, RejectErr))
     if name == 'archive_entries_preserved':
         return all(k in post.A and post.A[k] == v for k, v in pre.A.items())
     if name == 'parked_archive_untouched':
